@@ -1213,25 +1213,24 @@ End G.
 Section H.
   Variable u : univ.
 
-  Lemma conc_eq : forall a b, conc a -> conc b -> check_assignable u (Some a) (Some b) <> MustNot -> a = b.
-  Proof.
-    intros a b Ca Cb H. destruct a as [x| |]; try discriminate. destruct b as [y| |]; try discriminate.
-    f_equal. eapply concrete_pair_equal; eauto.
-  Qed.
+  (* the declared types: any set of pairwise incomparable types (an antichain of the lattice:
+     two of them are compatible only when equal), for instance all non-interface types *)
+  Variable P : ty -> Prop.
+  Hypothesis P_eq : forall a b, P a -> P b -> check_assignable u (Some a) (Some b) <> MustNot -> a = b.
 
-  Lemma conn_ceq : forall f p, inv u f -> quiet f -> tyP conc f -> In p (conns f) -> ceq f p.
+  Lemma conn_ceq : forall f p, inv u f -> quiet f -> tyP P f -> In p (conns f) -> ceq f p.
   Proof.
     intros f p I Q T Hp. destruct (inv_conns _ _ I p Hp) as [[[a [b [Ha [Hb [Hc _]]]]]|Hin] _].
     - right. exists a. split; [exact Ha|]. rewrite Hb. f_equal. symmetry.
-      apply conc_eq; [eapply tyP_out; eauto | eapply tyP_in; eauto | exact Hc].
+      apply P_eq; [eapply tyP_out; eauto | eapply tyP_in; eauto | exact Hc].
     - left. apply Q; exact Hin.
   Qed.
 
-  Lemma conn_seq : forall f p, inv u f -> g_tvm f = [] -> tyP conc f -> In p (conns f) -> seq f p.
+  Lemma conn_seq : forall f p, inv u f -> g_tvm f = [] -> tyP P f -> In p (conns f) -> seq f p.
   Proof.
     intros f p I T0 T Hp. destruct (inv_conns _ _ I p Hp) as [[[a [b [Ha [Hb [Hc _]]]]]|Hin] _].
     - exists a. split; [exact Ha|]. rewrite Hb. f_equal. symmetry.
-      apply conc_eq; [eapply tyP_out; eauto | eapply tyP_in; eauto | exact Hc].
+      apply P_eq; [eapply tyP_out; eauto | eapply tyP_in; eauto | exact Hc].
     - rewrite T0 in Hin. destruct Hin.
   Qed.
 
@@ -1244,11 +1243,11 @@ Section H.
   Qed.
 
   Lemma run_tyP : forall L orcs j st,
-    inv u st -> tyP conc st -> Forall (op_tyP conc) L -> tyP conc (fst (run_ops u orcs j st L)).
+    inv u st -> tyP P st -> Forall (op_tyP P) L -> tyP P (fst (run_ops u orcs j st L)).
   Proof.
     induction L as [|o rest IH]; intros orcs j st I T F; unfold run_ops in *; simpl; [exact T|].
     inversion F as [|o0 l0 Fo Fr]; subst.
-    pose proof (step_tyP u conc (orcs j) st o I T Fo) as T1. unfold step in T1.
+    pose proof (step_tyP u P (orcs j) st o I T Fo) as T1. unfold step in T1.
     destruct (step_sel u false false false (orcs j) st o) as [st1 ok] eqn:Hs. simpl in T1.
     assert (I1 : inv u st1) by (destruct (step_spec u _ _ _ _ _ I Hs) as [I1 _]; exact I1).
     specialize (IH orcs (S j) st1 I1 T1 Fr).
@@ -1332,14 +1331,14 @@ Section H.
   Qed.
 
   Lemma run_ref : forall L orcs j st,
-    inv u st -> tyP conc st -> Forall (op_tyP conc) L ->
+    inv u st -> tyP P st -> Forall (op_tyP P) L ->
     Forall (eq true) (snd (run_ops u orcs j st L)) ->
     Forall (opref Qc (fst (run_ops u orcs j st L))) L.
   Proof.
     induction L as [|o rest IH]; intros orcs j st I T F OK; [constructor|].
     inversion F as [|o0 l0 Fo Fr]; subst.
     unfold run_ops in *; simpl in *.
-    pose proof (step_tyP u conc (orcs j) st o I T Fo) as T1. unfold step in T1.
+    pose proof (step_tyP u P (orcs j) st o I T Fo) as T1. unfold step in T1.
     destruct (step_sel u false false false (orcs j) st o) as [st1 ok] eqn:Hs. simpl in T1.
     assert (I1 : inv u st1) by (destruct (step_spec u _ _ _ _ _ I Hs) as [I1 _]; exact I1).
     specialize (IH orcs (S j) st1 I1 T1 Fr).
@@ -1367,7 +1366,7 @@ Section H.
       { subst st1. simpl. apply in_or_app. right. left. reflexivity. }
       split.
       + destruct (inv_branches _ _ I1 _ _ HB) as [_ [a' [Ha' [Hc _]]]]. simpl in Hc.
-        rewrite Ha'. f_equal. apply conc_eq; [eapply tyP_out; eauto | exact Fo | exact Hc].
+        rewrite Ha'. f_equal. apply P_eq; [eapply tyP_out; eauto | exact Fo | exact Hc].
       + intros e He. unfold Qc, conns. apply in_or_app. right.
         eapply branch_pair_In; [exact HB | exact He].
   Qed.
@@ -1396,6 +1395,8 @@ Qed.
 
 Section Z.
   Variable u : univ.
+  Variable P : ty -> Prop.
+  Hypothesis P_eq : forall a b, P a -> P b -> check_assignable u (Some a) (Some b) <> MustNot -> a = b.
 
   Lemma sub_both_types : forall a b, sub a b -> sub b a ->
     forall k, in_ty a k = in_ty b k /\ out_ty a k = out_ty b k.
@@ -1408,8 +1409,8 @@ Section Z.
   Qed.
 
   (* one direction: the first order is accepted, so is the second, with the same types *)
-  Theorem add_order_accept : forall orcs1 orcs2 i o s L1 L2,
-    conc i -> conc o -> Forall (op_tyP conc) L1 -> no_compile L1 -> Permutation L1 L2 -> nbu [] L2 ->
+  Theorem add_order_accept_gen : forall orcs1 orcs2 i o s L1 L2,
+    P i -> P o -> Forall (op_tyP P) L1 -> no_compile L1 -> Permutation L1 L2 -> nbu [] L2 ->
     last (snd (run_ops u orcs1 0 (init_graph i o s) (L1 ++ [OpCompile]))) false = true ->
     last (snd (run_ops u orcs2 0 (init_graph i o s) (L2 ++ [OpCompile]))) false = true /\
     forall k,
@@ -1422,9 +1423,9 @@ Section Z.
     set (st0 := init_graph i o s) in *.
     assert (I0 : inv u st0) by apply inv_init.
     assert (SI0 : sim_inv u st0) by apply sim_inv_init.
-    assert (T0 : tyP conc st0).
+    assert (T0 : tyP P st0).
     { split; [exact Ci|]. split; [exact Co|]. intros k n t G. discriminate. }
-    assert (F2 : Forall (op_tyP conc) L2) by (eapply Permutation_Forall; eauto).
+    assert (F2 : Forall (op_tyP P) L2) by (eapply Permutation_Forall; eauto).
     assert (NC2 : no_compile L2) by (eapply Permutation_Forall; eauto).
     (* run 1 *)
     destruct (run_ops u orcs1 0 st0 (L1 ++ [OpCompile])) as [fin1 oks1] eqn:R1.
@@ -1434,7 +1435,7 @@ Section Z.
     pose proof (run_all_ok u L1 orcs1 0%nat st0 NC1 eq_refl eq_refl) as AO1. rewrite Ra in AO1. simpl in AO1.
     destruct (AO1 GE1) as [OK1 GC1].
     pose proof (run_inv u L1 orcs1 0%nat st0 I0) as If1. rewrite Ra in If1. simpl in If1.
-    pose proof (run_tyP u L1 orcs1 0%nat st0 I0 T0 F1) as Tf1. rewrite Ra in Tf1. simpl in Tf1.
+    pose proof (run_tyP u P L1 orcs1 0%nat st0 I0 T0 F1) as Tf1. rewrite Ra in Tf1. simpl in Tf1.
     pose proof (run_sim_inv u L1 orcs1 0%nat st0 SI0) as SIf1. rewrite Ra in SIf1. simpl in SIf1.
     (* structure of the op list, from the success of run 1 *)
     assert (STR1 : STR st0 L1).
@@ -1445,24 +1446,24 @@ Section Z.
       split; [eapply Permutation_NoDup; [apply edges_perm; exact PM | exact N2]|].
       split; [reflexivity|]. split; [exact NB|]. eapply Permutation_Forall; eauto. }
     (* f1 as a (strong) reference *)
-    pose proof (run_ref u L1 orcs1 0%nat st0 I0 T0 F1) as RF1. rewrite Ra in RF1. simpl in RF1. specialize (RF1 OK1).
+    pose proof (run_ref u P P_eq L1 orcs1 0%nat st0 I0 T0 F1) as RF1. rewrite Ra in RF1. simpl in RF1. specialize (RF1 OK1).
     assert (RS1 : Forall (opref seq f1) L2).
     { eapply Permutation_Forall; [exact PM|]. eapply Forall_impl; [|exact RF1].
-      intros o0. apply opref_imp. intros p Hp. apply (conn_seq u f1 p If1 TV1 Tf1 Hp). }
+      intros o0. apply opref_imp. intros p Hp. apply (conn_seq u P P_eq f1 p If1 TV1 Tf1 Hp). }
     destruct (run_self u L1 orcs1 0%nat st0 I0) as [S01 _]. rewrite Ra in S01. simpl in S01.
     (* run 2 succeeds *)
     destruct (run_ok u L2 orcs2 0%nat st0 f1 I0 eq_refl eq_refl (inv_nodes _ _ If1) S01 (fun p Hp => match Hp with end) RS1 STR2)
       as [OK2 [GE2 [GC2 S21]]].
     destruct (run_ops u orcs2 0 st0 L2) as [f2 oksb] eqn:Rb. simpl in OK2, GE2, GC2, S21.
     pose proof (run_inv u L2 orcs2 0%nat st0 I0) as If2. rewrite Rb in If2. simpl in If2.
-    pose proof (run_tyP u L2 orcs2 0%nat st0 I0 T0 F2) as Tf2. rewrite Rb in Tf2. simpl in Tf2.
+    pose proof (run_tyP u P L2 orcs2 0%nat st0 I0 T0 F2) as Tf2. rewrite Rb in Tf2. simpl in Tf2.
     pose proof (run_sim_inv u L2 orcs2 0%nat st0 SI0) as SIf2. rewrite Rb in SIf2. simpl in SIf2.
     destruct SIf2 as [_ [KO2 Q2]]. specialize (Q2 GE2).
     (* f2 as a (weak) reference for run 1 *)
-    pose proof (run_ref u L2 orcs2 0%nat st0 I0 T0 F2) as RF2. rewrite Rb in RF2. simpl in RF2. specialize (RF2 OK2).
+    pose proof (run_ref u P P_eq L2 orcs2 0%nat st0 I0 T0 F2) as RF2. rewrite Rb in RF2. simpl in RF2. specialize (RF2 OK2).
     assert (RW2 : Forall (opref ceq f2) L1).
     { eapply Permutation_Forall; [apply Permutation_sym; exact PM|]. eapply Forall_impl; [|exact RF2].
-      intros o0. apply opref_imp. intros p Hp. apply (conn_ceq u f2 p If2 Q2 Tf2 Hp). }
+      intros o0. apply opref_imp. intros p Hp. apply (conn_ceq u P P_eq f2 p If2 Q2 Tf2 Hp). }
     destruct (run_self u L2 orcs2 0%nat st0 I0) as [S02 _]. rewrite Rb in S02. simpl in S02.
     pose proof (run_sub u L1 orcs1 0%nat st0 f2 I0 (inv_nodes _ _ If2) S02 (fun p Hp => match Hp with end) RW2) as S12.
     rewrite Ra in S12. simpl in S12. specialize (S12 OK1).
@@ -1504,17 +1505,42 @@ Section Z.
   Qed.
 
   (* both orders keep node-before-use: same verdict *)
-  Theorem add_order_verdict : forall orcs1 orcs2 i o s L1 L2,
-    conc i -> conc o -> Forall (op_tyP conc) L1 -> no_compile L1 -> Permutation L1 L2 -> nbu [] L1 -> nbu [] L2 ->
+  Theorem add_order_verdict_gen : forall orcs1 orcs2 i o s L1 L2,
+    P i -> P o -> Forall (op_tyP P) L1 -> no_compile L1 -> Permutation L1 L2 -> nbu [] L1 -> nbu [] L2 ->
     last (snd (run_ops u orcs1 0 (init_graph i o s) (L1 ++ [OpCompile]))) false =
     last (snd (run_ops u orcs2 0 (init_graph i o s) (L2 ++ [OpCompile]))) false.
   Proof.
     intros orcs1 orcs2 i o s L1 L2 Ci Co F1 NC1 PM NB1 NB2.
     destruct (last (snd (run_ops u orcs1 0 (init_graph i o s) (L1 ++ [OpCompile]))) false) eqn:A.
-    - symmetry. apply (add_order_accept orcs1 orcs2 i o s L1 L2); auto.
+    - symmetry. apply (add_order_accept_gen orcs1 orcs2 i o s L1 L2); auto.
     - destruct (last (snd (run_ops u orcs2 0 (init_graph i o s) (L2 ++ [OpCompile]))) false) eqn:B; [|reflexivity].
-      assert (F2 : Forall (op_tyP conc) L2) by (eapply Permutation_Forall; eauto).
+      assert (F2 : Forall (op_tyP P) L2) by (eapply Permutation_Forall; eauto).
       assert (NC2 : no_compile L2) by (eapply Permutation_Forall; eauto).
-      destruct (add_order_accept orcs2 orcs1 i o s L2 L1 Ci Co F2 NC2 (Permutation_sym PM) NB1 B) as [C _]. congruence.
+      destruct (add_order_accept_gen orcs2 orcs1 i o s L2 L1 Ci Co F2 NC2 (Permutation_sym PM) NB1 B) as [C _]. congruence.
   Qed.
 End Z.
+
+
+(* the antichain of the non-interface types: the instance stated in Props/C07.v since round 2 *)
+Lemma conc_eq : forall u a b, conc a -> conc b -> check_assignable u (Some a) (Some b) <> MustNot -> a = b.
+Proof.
+  intros u a b Ca Cb H. destruct a as [x| |]; try discriminate. destruct b as [y| |]; try discriminate.
+  f_equal. eapply concrete_pair_equal; eauto.
+Qed.
+
+Theorem add_order_accept : forall u orcs1 orcs2 i o s L1 L2,
+  conc i -> conc o -> Forall (op_tyP conc) L1 -> no_compile L1 -> Permutation L1 L2 -> nbu [] L2 ->
+  last (snd (run_ops u orcs1 0 (init_graph i o s) (L1 ++ [OpCompile]))) false = true ->
+  last (snd (run_ops u orcs2 0 (init_graph i o s) (L2 ++ [OpCompile]))) false = true /\
+  forall k,
+    in_ty (fst (run_ops u orcs1 0 (init_graph i o s) (L1 ++ [OpCompile]))) k =
+    in_ty (fst (run_ops u orcs2 0 (init_graph i o s) (L2 ++ [OpCompile]))) k /\
+    out_ty (fst (run_ops u orcs1 0 (init_graph i o s) (L1 ++ [OpCompile]))) k =
+    out_ty (fst (run_ops u orcs2 0 (init_graph i o s) (L2 ++ [OpCompile]))) k.
+Proof. intros u. exact (add_order_accept_gen u conc (conc_eq u)). Qed.
+
+Theorem add_order_verdict : forall u orcs1 orcs2 i o s L1 L2,
+  conc i -> conc o -> Forall (op_tyP conc) L1 -> no_compile L1 -> Permutation L1 L2 -> nbu [] L1 -> nbu [] L2 ->
+  last (snd (run_ops u orcs1 0 (init_graph i o s) (L1 ++ [OpCompile]))) false =
+  last (snd (run_ops u orcs2 0 (init_graph i o s) (L2 ++ [OpCompile]))) false.
+Proof. intros u. exact (add_order_verdict_gen u conc (conc_eq u)). Qed.
